@@ -134,12 +134,19 @@ func (g *gen) robustIn(s sol, q pt, d3 bool, h float64) bool {
 	if g.exact {
 		return true
 	}
-	for i := 0; i < dims(d3); i++ {
-		for _, sg := range []float64{-1, 1} {
-			r := q
-			r[i] += sg * h
-			if !s.Contains(r) {
-				return false
+	// all 26 (2D: 8) neighbours: at a vertex of a rect decomposition the axis neighbours can all be
+	// inside while an octant is empty, and the rounding of Inverse(Apply(q)) moves diagonally
+	zs := []float64{-1, 0, 1}
+	if !d3 {
+		zs = []float64{0}
+	}
+	for _, dx := range []float64{-1, 0, 1} {
+		for _, dy := range []float64{-1, 0, 1} {
+			for _, dz := range zs {
+				r := pt{q[0] + dx*h, q[1] + dy*h, q[2] + dz*h}
+				if !s.Contains(r) {
+					return false
+				}
 			}
 		}
 	}
@@ -148,7 +155,7 @@ func (g *gen) robustIn(s sol, q pt, d3 bool, h float64) bool {
 
 // noCut: for every point of interest q of the operand where the underlying definition says
 // inside (robustly, in float mode), the wrapper must report its image contained.
-func (g *gen) noCut(wrapper string, inner sol, innerD3 bool, outer sol, pts []pt, fwd func(pt) (pt, bool)) {
+func (g *gen) noCut(wrapper string, inner sol, innerD3 bool, outer sol, pts []pt, fwd func(pt) (pt, bool), desc ...string) {
 	lo, hi := inner.Min(), inner.Max()
 	h := 1e-6 * boxScale(lo, hi, innerD3)
 	for _, q := range pts {
@@ -163,7 +170,7 @@ func (g *gen) noCut(wrapper string, inner sol, innerD3 bool, outer sol, pts []pt
 		g.c.Stat("nocut_evaluations_"+wrapper, 1)
 		if !outer.Contains(p) {
 			g.c.PropFail("c03:wrapper-cuts:"+wrapper, fmt.Sprintf("underlying definition contains %v (image %v) but the %s wrapper with box [%v,%v] rejects it; operand box [%v,%v]",
-				q, p, wrapper, outer.Min(), outer.Max(), lo, hi))
+				q, p, wrapper, outer.Min(), outer.Max(), lo, hi)+" "+strings.Join(desc, " "))
 			return
 		}
 	}
@@ -556,6 +563,9 @@ func (g *gen) sdfLeaf3() (model3d.SDF, string) {
 	case 1:
 		s = &model3d.Sphere{Center: c3(lo), Radius: g.size(3) + 1.0/32}
 	default:
+		if lo == hi {
+			hi[0] += 1 // P1 == P2 makes Capsule.SDF divide by zero (NaN); not a solid parameter of interest here
+		}
 		s = &model3d.Capsule{P1: c3(lo), P2: c3(hi), Radius: g.size(2) + 1.0/32}
 	}
 	id := g.id()
@@ -605,6 +615,9 @@ func (g *gen) mbLeaf3() (model3d.Metaball, string) {
 	case 1:
 		m = &model3d.Sphere{Center: c3(lo), Radius: g.size(3) + 0.1}
 	default:
+		if lo == hi {
+			hi[0] += 1
+		}
 		m = &model3d.Capsule{P1: c3(lo), P2: c3(hi), Radius: g.size(2) + 0.1}
 	}
 	var factors []float64
@@ -747,7 +760,7 @@ func (g *gen) solid3(depth int) *node {
 		t, tok := g.xforms3()
 		out := model3d.TransformSolid(t, in.s3)
 		fwd := func(q pt) (pt, bool) { return p3(t.Apply(c3(q))), true }
-		g.noCut("transform", sol3{in.s3}, true, sol3{out}, in.pts, fwd)
+		g.noCut("transform", sol3{in.s3}, true, sol3{out}, in.pts, fwd, tok, in.tok)
 		var pts []pt
 		for _, q := range in.pts {
 			p, _ := fwd(q)
@@ -957,6 +970,13 @@ func (g *gen) solid3(depth int) *node {
 				return g.leaf3()
 			}
 			mn, mx := p3(out.Min()), p3(out.Max())
+			for i := 0; i < 3; i++ {
+				// the mesh vertices come out of a 3x3 solve: keep the case only if they are short dyadics
+				if !finite(mn) || !finite(mx) || mn[i]*1024 != math.Round(mn[i]*1024) || mx[i]*1024 != math.Round(mx[i]*1024) {
+					g.c.Stat("polytope_box_not_dyadic_skipped", 1)
+					return g.leaf3()
+				}
+			}
 			tok := fmt.Sprintf("poly 3 %s %s %d", fpt(mn), fpt(mx), len(p))
 			for _, l := range p {
 				tok += " " + fpt(p3(l.Normal)) + " " + num(l.Max)
@@ -1190,6 +1210,12 @@ func oneTree(c *hlib.Ctx, exact, d3 bool, depth int) {
 		ans.WriteString(b2s(s.Contains(p)))
 	}
 	checkOutside(c, "c03:contains-outside-box:tree-"+mode, s, d3, pts, exact, root.tok)
+	for _, e := range g.rec.ents {
+		if math.IsNaN(e.v) || math.IsInf(e.v, 0) {
+			c.Stat("tree_skipped_nonfinite_oracle_value", 1)
+			return
+		}
+	}
 	if exact && g.rec.inexact {
 		c.Stat("tree_dropped_inexact_sphere_arithmetic", 1)
 		return
